@@ -642,7 +642,12 @@ def build_for(E, spec, pid):
         E.contracts[f"{SP}.{name}#event"] = contracts[name]
     spec.targets = [(f"{SP}.{name}", None) for name in EVENTS]
     spec.event_contracts = {f"{SP}.{name}": contracts[name] for name in EVENTS}
-    spec.keep = lambda obname: ("[INV]" in obname) or (pid in obname.split("]")[0] if "[" in obname else True) or "/requires/" in obname and (pid + ":" in obname or "transport.close" in obname)
+    import re as _re
+
+    def _req_tagged(obname):
+        m = _re.search(r"/requires/((?:C\d\d,?)+):", obname)
+        return bool(m) and pid in m.group(1).split(",")
+    spec.keep = lambda obname: ("[INV]" in obname) or (pid in obname.split("]")[0] if "[" in obname else True) or "/requires/" in obname and (_req_tagged(obname) or "transport.close" in obname)
     spec.trusted += [
         "R1: event induction over data_received / timer / task-done callbacks / connection_lost (DESIGN 3.1)",
         "E1: asyncio dispatch (callbacks atomic, connection_made first, connection_lost last, timers fire unless cancelled, done-callbacks run once)",
@@ -652,3 +657,15 @@ def build_for(E, spec, pid):
         "GeminiRequest.from_line / TitanRequest.from_line enter by contract (returns a valid request or raises ValueError): decided under C08/C19",
     ]
     return env, contracts
+
+def no_falsy_middleware(E):
+    """the protocol decides 'is there a middleware?' by truthiness (if self.middleware:): a middleware class that defines
+    __len__ or __bool__ could be present and yet skipped"""
+    import ast as _ast
+    mod = E.repo.module("nauyaca.server.middleware")
+    bad = []
+    for cname, cls in mod.classes.items():
+        for n in cls.body:
+            if isinstance(n, (_ast.FunctionDef, _ast.AsyncFunctionDef)) and n.name in ("__len__", "__bool__"):
+                bad.append(f"{cname}.{n.name}")
+    return (not bad), ("no class of server/middleware.py defines __len__ or __bool__" if not bad else f"defined: {bad} - an empty/falsy middleware object is skipped by 'if self.middleware:' in GeminiServerProtocol")
